@@ -42,6 +42,8 @@ struct Post {
 #[derive(Clone)]
 struct T {
     day: u32,
+    /// secondary ("effective") date written after `=` in the header: must change nothing in any balance report
+    eff: Option<u32>,
     ps: Vec<Post>,
 }
 
@@ -57,16 +59,18 @@ fn pt(acct: &'static str, milli: i64, com: usize, rate: &'static str, rc: usize)
 
 fn alphabet() -> Vec<T> {
     vec![
-        T { day: D1, ps: vec![p("P", 10_000, 0), p("Q", -10_000, 0)] },
-        T { day: D1, ps: vec![pc("P", 1_000, 0, "2", 2), p("Q", -2_000, 2)] },
-        T { day: D2, ps: vec![pc("P", 1_000, 0, "3", 2), p("Q", -3_000, 2)] },
-        T { day: D2, ps: vec![pc("P", 4_000, 1, "0.5", 0), p("Q", -2_000, 0)] },
-        T { day: D3, ps: vec![p("P", 2_000, 1), p("Q", -2_000, 1)] },
-        T { day: D1, ps: vec![p("P", 1_500, 2), p("Q", -1_500, 2)] },
-        T { day: D3, ps: vec![pc("Q", 3_000, 0, "1.255", 2), p("P", -3_765, 2)] },
-        T { day: D2, ps: vec![pc("P", 5_000, 1, "7", 2), p("Q", -35_000, 2)] },
+        T { eff: None, day: D1, ps: vec![p("P", 10_000, 0), p("Q", -10_000, 0)] },
+        T { eff: None, day: D1, ps: vec![pc("P", 1_000, 0, "2", 2), p("Q", -2_000, 2)] },
+        T { eff: None, day: D2, ps: vec![pc("P", 1_000, 0, "3", 2), p("Q", -3_000, 2)] },
+        T { eff: None, day: D2, ps: vec![pc("P", 4_000, 1, "0.5", 0), p("Q", -2_000, 0)] },
+        T { eff: None, day: D3, ps: vec![p("P", 2_000, 1), p("Q", -2_000, 1)] },
+        T { eff: None, day: D1, ps: vec![p("P", 1_500, 2), p("Q", -1_500, 2)] },
+        T { eff: None, day: D3, ps: vec![pc("Q", 3_000, 0, "1.255", 2), p("P", -3_765, 2)] },
+        T { eff: None, day: D2, ps: vec![pc("P", 5_000, 1, "7", 2), p("Q", -35_000, 2)] },
         // a sale priced by its total: -2 B @@ 8 T states 1 B = 4 T
-        T { day: D3, ps: vec![pt("P", -2_000, 1, "4", 2), p("Q", 8_000, 2)] },
+        T { eff: None, day: D3, ps: vec![pt("P", -2_000, 1, "4", 2), p("Q", 8_000, 2)] },
+        // a purchase with a secondary date after every other price of B: `2024/01/10=2024/01/25`
+        T { eff: Some(25), day: D1, ps: vec![pc("P", 2_000, 1, "6", 2), p("Q", -12_000, 2)] },
     ]
 }
 
@@ -84,7 +88,10 @@ fn render(tprec: Option<u32>, seq: &[&T], mult: i64) -> String {
     }
     s.push('\n');
     for (i, t) in seq.iter().enumerate() {
-        s.push_str(&format!("2024/01/{:02} t{}\n", t.day, i));
+        match t.eff {
+            None => s.push_str(&format!("2024/01/{:02} t{}\n", t.day, i)),
+            Some(e) => s.push_str(&format!("2024/01/{:02}=2024/01/{:02} t{}\n", t.day, e, i)),
+        }
         for po in &t.ps {
             s.push_str(&format!("  {}  {} {}", po.acct, fmt_milli(po.milli * mult), NAMES[po.com]));
             if let Some((r, rc)) = po.cost {
